@@ -554,7 +554,9 @@ fn all_redirs() -> Vec<Redir> {
 // ------------------------------------------------------------------ descriptors the shell opens for its own use
 
 /// commands that make the shell open descriptors of its own (not redirections)
-const INTERNAL_USERS: [(&str, &str); 9] = [
+const INTERNAL_USERS: [(&str, &str); 11] = [
+    ("three-stage pipeline", "fds in | fds in2 | fds in3"),
+    ("four-stage pipeline in a brace group", "{ fds in | fds in2 | fds in3 | fds in4; }"),
     ("dot script", "command . /tmp/dot1"),
     ("dot script, three levels", "command . /tmp/dot3"),
     ("dot script that is missing", "command . /tmp/nodot"),
@@ -626,7 +628,7 @@ fn internal_part(ctx: &Ctx) {
         |j| {
             let (u, limit) = jobs[j];
             let (what, cmd) = INTERNAL_USERS[u];
-            let mut s = String::from("exec 3>>/tmp/f3 4</tmp/in\n(:)\n");
+            let mut s = String::from("trap 'fds atexit' EXIT\nexec 3>>/tmp/f3 4</tmp/in\n(:)\n");
             if let Some(n) = limit {
                 s.push_str(&format!("ulimit -n {n}\n"));
             }
@@ -641,7 +643,19 @@ fn internal_part(ctx: &Ctx) {
             ctx.count("internal_descriptor_scenarios", 1);
             match check_internal(&out, what, limit.is_some()) {
                 Ok(()) => ctx.nontrivial_str(&format!("internal|{what}|{limit:?}")),
-                Err((sig, _)) if sig == "aborted" => ctx.count("internal_scenarios_shell_error_under_limit", 1),
+                Err((sig, _)) if sig == "aborted" => {
+                    ctx.count("internal_scenarios_shell_error_under_limit", 1);
+                    // the shell gave up: what its EXIT trap sees must still be the table from before
+                    let at_exit = out.events.iter().find(|e| e.kind == "fds" && e.args[0] == "atexit").map(|e| parse_table(&e.args[1])).unwrap_or_default();
+                    let before = out.events.iter().find(|e| e.kind == "fds" && e.args[0] == "before").map(|e| parse_table(&e.args[1])).unwrap_or_default();
+                    let stray: Vec<i32> = at_exit.keys().copied().filter(|fd| *fd < 10 && !before.contains_key(fd)).collect();
+                    if !stray.is_empty() {
+                        ctx.violation(
+                            format!("internal:leak-at-exit:{what}"),
+                            format!("{what}, RLIMIT_NOFILE {limit:?}: when the EXIT trap runs, descriptors {stray:?} are open that were not open before the command\nscript:\n{s}\nstderr:\n{}", out.err()),
+                        );
+                    }
+                }
                 Err((sig, _)) if sig == "inconclusive" => ctx.count("internal_scenarios_shell_could_not_start", 1),
                 Err((sig, why)) => ctx.violation(sig, format!("{what}, RLIMIT_NOFILE {limit:?}\n{why}\nscript:\n{s}\nstderr:\n{}", out.err())),
             }
@@ -736,9 +750,67 @@ fn internal_part(ctx: &Ctx) {
     }
 }
 
+/// Real system: the content of a here-document cannot be written (file size limit 0, SIGXFSZ
+/// ignored). The redirection fails; no descriptor may be left behind. (The simulated system never
+/// fails a write to a regular file, so this fault exists only here.)
+fn real_write_fault_part(ctx: &Ctx) {
+    let commands = ["relay <<E\ntext\nE", "{ relay; } <<E\ntext $HOME\nE", "f() { relay; }; f <<-E\n\ttext\n\tE", "relay 3<<E <&3\ntext\nE", "command eval relay <<E\ntext\nE"];
+    for (i, cmd) in commands.iter().enumerate() {
+        for limit in [Some(0), None] {
+            let mut script = String::from("trap '' XFSZ\nlsfd warm >/dev/null\n");
+            if let Some(l) = limit {
+                script.push_str(&format!("ulimit -f {l}\n"));
+            }
+            script.push_str(&format!("lsfd before\n{cmd}\necho \"st=$?\"\n{cmd}\necho \"st=$?\"\nlsfd after\n"));
+            let dir = std::env::temp_dir().join(format!("verif-c09r-{}-{i}", std::process::id()));
+            let _ = std::fs::remove_dir_all(&dir);
+            if std::fs::create_dir_all(&dir).is_err() {
+                ctx.inconclusive.fetch_add(1, std::sync::atomic::Ordering::Relaxed);
+                continue;
+            }
+            let exe = std::env::current_exe().unwrap();
+            let out = std::process::Command::new(exe)
+                .args(["real-shell", "-c", &script])
+                .current_dir(&dir)
+                .env_clear()
+                .env("PATH", "/bin:/usr/bin")
+                .env("LANG", "C")
+                .env("TMPDIR", &dir)
+                .stdin(std::process::Stdio::null())
+                .output();
+            let _ = std::fs::remove_dir_all(&dir);
+            let Ok(out) = out else {
+                ctx.inconclusive.fetch_add(1, std::sync::atomic::Ordering::Relaxed);
+                continue;
+            };
+            ctx.eval();
+            ctx.count("real_here_document_runs", 1);
+            let text = String::from_utf8_lossy(&out.stdout).into_owned();
+            let line = |tag: &str| text.lines().find(|l| l.starts_with(tag)).map(|l| l.to_string());
+            let (Some(b), Some(a)) = (line("before:"), line("after:")) else {
+                ctx.violation("real:here-document:no-listing", format!("script:\n{script}\nstdout:\n{text}\nstderr:\n{}", String::from_utf8_lossy(&out.stderr)));
+                continue;
+            };
+            let failed = text.lines().filter(|l| l.starts_with("st=") && *l != "st=0").count();
+            if limit.is_some() {
+                ctx.count("real_here_documents_that_failed_to_be_written", failed as i64);
+            }
+            if b.trim_start_matches("before:") != a.trim_start_matches("after:") {
+                ctx.violation(
+                    "real:here-document:descriptor-left-open",
+                    format!("real system, file size limit {limit:?}: open descriptors {b} / {a}\nscript:\n{script}\nstdout:\n{text}\nstderr:\n{}", String::from_utf8_lossy(&out.stderr)),
+                );
+            } else {
+                ctx.nontrivial_str(&format!("real-heredoc|{i}|{limit:?}|{failed}"));
+            }
+        }
+    }
+}
+
 pub fn run(ctx: &Ctx) {
     let quick = ctx.quick();
     internal_part(ctx);
+    real_write_fault_part(ctx);
     let redirs = all_redirs();
     ctx.count("single_redirections", redirs.len() as i64);
     // systematic: lists of length 1 and 2 x kinds x noclobber
@@ -844,4 +916,4 @@ pub fn run(ctx: &Ctx) {
     ctx.assume("under a lowered descriptor limit only the after-invariants are decided (table restored, nothing >= 10 left open); which allocation fails first is the kernel's business");
 }
 
-pub const RULE: &str = "scenario = (command kind in {regular built-in, special built-in via eval, function, brace group, subshell, if, external, not found, empty command, exec, echo writing through fd 1, special built-in in a subshell}) x redirection list x noclobber; single redirections: 6 target descriptors (open, closed) x every operator x operands {existing, missing, directory, missing parent, open/closed descriptor, close, here-document}; all lists of length 1, every 7th (quick) / every list of length 2, random lists of length 3; fault enumeration: each single redirection x kind x every RLIMIT_NOFILE from 5 to 20 (every 9th in quick) + random lists under random limits. Compared with the fd-table model: table during the command (open-file-description identity, access mode, inode, internal descriptors >= 10 with close-on-exec), table after == before (exec: == modelled), no descriptor >= 10 left open, file contents and creation. Descriptors of the shell's own: 9 commands that make the shell open descriptors for itself (dot scripts up to three levels deep, missing dot script, command substitutions, here-document, pipeline) x {no limit, every RLIMIT_NOFILE 5..24}, and the shell reading a script file (as operand, through `.`) with 0-7 of the descriptors 3-9 already open: every descriptor >= 10 close-on-exec at every snapshot, no stray descriptor below 10, table after == before; the same commands with the 1st..4th process creation failing (injected EAGAIN). evaluations = scenario runs; distinct_nontrivial = distinct scenarios";
+pub const RULE: &str = "scenario = (command kind in {regular built-in, special built-in via eval, function, brace group, subshell, if, external, not found, empty command, exec, echo writing through fd 1, special built-in in a subshell}) x redirection list x noclobber; single redirections: 6 target descriptors (open, closed) x every operator x operands {existing, missing, directory, missing parent, open/closed descriptor, close, here-document}; all lists of length 1, every 7th (quick) / every list of length 2, random lists of length 3; fault enumeration: each single redirection x kind x every RLIMIT_NOFILE from 5 to 20 (every 9th in quick) + random lists under random limits. Compared with the fd-table model: table during the command (open-file-description identity, access mode, inode, internal descriptors >= 10 with close-on-exec), table after == before (exec: == modelled), no descriptor >= 10 left open, file contents and creation. Descriptors of the shell's own: 11 commands that make the shell open descriptors for itself (dot scripts up to three levels deep, missing dot script, command substitutions, here-document, pipeline) x {no limit, every RLIMIT_NOFILE 5..24}, and the shell reading a script file (as operand, through `.`) with 0-7 of the descriptors 3-9 already open: every descriptor >= 10 close-on-exec at every snapshot, no stray descriptor below 10, table after == before; the same commands with the 1st..4th process creation failing (injected EAGAIN); on the real system: here-documents whose content cannot be written (RLIMIT_FSIZE 0): descriptor list from /proc before == after. evaluations = scenario runs; distinct_nontrivial = distinct scenarios";
